@@ -465,3 +465,8 @@ def check(ck):
     ck.run(check_queue_unbounded, ck, cm, "C06.R3")
     ck.run(check_replace_on_put, ck, cm, "C06.R4")
     ck.run(check_forget, ck, cm, "C06.R5")
+    # the accounts are only honest if each public operation updates map, queue and counter in ONE critical
+    # section of the cache lock (shared with C09.R3): a put split over two sections lets another put
+    # of the same key in between, and the size is counted twice / the budget exceeded
+    from .c09 import check_cache_guarded
+    ck.run(check_cache_guarded, ck, cm, "C06.R6")
